@@ -287,6 +287,9 @@ pub fn active(e: &OrderEntry) -> bool {
 /// draw an arbitrary table of exactly M entries satisfying I, inside capacity N (> M)
 pub fn gen_plain<const N: usize>(m: usize, cfg: GenCfg) -> Plain<N> {
     let t = g_u64(cfg.wide);
+    // the last few clock values are excluded: Nanos::MAX is the "still live" end-time sentinel and
+    // queue times saturate there
+    assume(t < Nanos::MAX - 8);
     let tick: Price = if cfg.sym_tick {
         let k = any_u32();
         assume(k >= 1 && k <= 10);
